@@ -8,6 +8,7 @@ the `unreachable!()` sites of compiler.rs is reached.
 -/
 import TeraModel.Model.CompilerImp
 import TeraModel.Lemmas.CompilerKwOrder
+import Mathlib.Tactic.CasesM
 namespace Tera.Compiler.Imp
 open Tera Tera.Compiler
 
@@ -29,6 +30,11 @@ def NoPanicEv (ev : Event) : Prop := ev.isPanic = none
 @[simp] theorem res_bodies (c code evs) : (Res c code evs).bodies = c.bodies := rfl
 @[simp] theorem res_events (c code evs) : (Res c code evs).events = c.events ++ evs := rfl
 @[simp] theorem res_depth (c code evs) : (Res c code evs).depth = c.depth := rfl
+
+@[simp] theorem currentLoop_nil : currentLoop [] = none := rfl
+@[simp] theorem currentLoop_loop (i b) : currentLoop (.loop i :: b) = some i := rfl
+@[simp] theorem currentLoop_branch (i b) : currentLoop (.branch i :: b) = currentLoop b := rfl
+@[simp] theorem currentLoop_short (l b) : currentLoop (.shortCircuit l :: b) = currentLoop b := rfl
 
 theorem comp_ext (a b : Comp) (h1 : a.chunk = b.chunk) (h2 : a.bodies = b.bodies)
     (h3 : a.events = b.events) (h4 : a.depth = b.depth) : a = b := by
@@ -78,6 +84,34 @@ def ImM9 (m : List MapEntry) : Prop :=
     compileMapItems m c = .ok (Res c (mapItemsCode c.chunk.length (currentLoop c.bodies) m)
       (mapItemsEvents (currentLoop c.bodies).isSome c.depth m))
 
+macro "imp_simp" : tactic => `(tactic| simp (config := { zetaDelta := true }) [*, exprCode, nodesCode, nodeCode,
+      kwargsCode, filtersCode, condCode, optExprCode, arrayItemsCode, mapItemsCode, Res, add, record,
+      List.append_assoc, sp, ns, storeKey, keyStore, Nat.add_assoc, currentLoop_nil, currentLoop_loop, currentLoop_branch, currentLoop_short,
+      endBranch, patchBranch, patchShort, patchIterate, patchPopJump] at *)
+
+/-- everything of `imp_simp` except the hypotheses: evaluate the patches, normalise, compare -/
+macro "imp_eval" : tactic => `(tactic| simp (config := { zetaDelta := true }) [exprCode, nodesCode, nodeCode,
+      kwargsCode, filtersCode, condCode, optExprCode, arrayItemsCode, mapItemsCode, Res, add, record,
+      List.append_assoc, sp, ns, storeKey, keyStore, Nat.add_assoc, currentLoop_nil, currentLoop_loop,
+      currentLoop_branch, currentLoop_short, endBranch, patchBranch, patchShort, patchIterate, patchPopJump])
+
+/-- the side condition of an induction hypothesis: no panic event in the sub-term, in the state the
+sub-call starts in (same current loop, same depth) -/
+macro "imp_side" : tactic => `(tactic| (
+  simp only [res_bodies, res_depth, add_bodies, add_depth, record_bodies, record_depth, currentLoop_nil,
+    currentLoop_loop, currentLoop_branch, currentLoop_short, Option.isSome_some, Option.isSome_none]
+  assumption))
+
+/-- rewrite the recursive calls with the induction hypotheses and run the binds -/
+macro "imp_calls" : tactic => `(tactic| simp (config := { zetaDelta := true }) (disch := imp_side) only
+  [*, bnd_ok, bnd_error, res_bodies, res_chunk, res_events, res_depth, add_chunk, add_bodies, add_events,
+   add_depth, record_chunk, record_bodies, record_events, record_depth])
+
+macro "imp_unfold" : tactic => `(tactic| simp only [compileExpr, compileNodes, compileNode, compileKwargs,
+    compileFilters, compileCond, compileOpt, compileArrayItems, compileMapItems, exprEvents, nodesEvents,
+    nodeEvents, kwargsEvents, filtersEvents, optExprEvents, arrayItemsEvents, mapItemsEvents, allE_append,
+    allE_cons, allE_nil, and_true, true_and] at *)
+
 set_option maxHeartbeats 1600000 in
 theorem imp_eq_aux :
     (∀ e, ImM1 e) ∧ (∀ ns, ImM2 ns) ∧ (∀ n, ImM3 n) ∧ (∀ k, ImM4 k) ∧ (∀ f, ImM5 f) ∧
@@ -91,6 +125,12 @@ theorem imp_eq_aux :
     (motive_6 := fun o => ImM6 o ∧ ImM7 o)
     (motive_7 := fun a => ImM8 a)
     (motive_8 := fun m => ImM9 m)
+  case case15 =>
+    intro op l r ih1 ih2
+    simp only [ImM1] at *
+    intro c h
+    cases op <;> (try imp_unfold) <;> (try (simp [NoPanicEv, Event.isPanic] at h; done)) <;>
+      (try casesm* _ ∧ _) <;> (try imp_calls) <;> (try imp_eval) <;> (try grind)
   all_goals intros
   all_goals (try simp only [ImM1, ImM2, ImM3, ImM4, ImM5, ImM6, ImM7, ImM8, ImM9] at *)
   all_goals (try (refine ⟨?_, ?_⟩))
@@ -100,12 +140,11 @@ theorem imp_eq_aux :
     filtersEvents, optExprEvents, arrayItemsEvents, mapItemsEvents, allE_append, allE_cons, allE_nil,
     and_true, true_and] at *)
   all_goals (try (simp [NoPanicEv, Event.isPanic] at *; done))
+  all_goals (try casesm* _ ∧ _)
   all_goals (try (
     (try split)
-    all_goals (try simp (config := { zetaDelta := true }) [*, exprCode, nodesCode, nodeCode,
-      kwargsCode, filtersCode, condCode, optExprCode, arrayItemsCode, mapItemsCode, Res, add, record,
-      List.append_assoc, sp, ns, storeKey, keyStore, NoPanicEv, Event.isPanic, Nat.add_assoc, currentLoop,
-      endBranch, patchBranch, patchShort, patchIterate, patchPopJump] at *)
+    all_goals (try imp_calls)
+    all_goals (try imp_eval)
     all_goals (try grind)
     done))
   all_goals trace_state
